@@ -454,7 +454,8 @@ func (tk *tokenizer) consumeUrl(pos Pos) (Token, Token) {
 badURL:
 	// http://drafts.csswg.org/csswg/css-syntax/#consume-the-remnants-of-a-bad-url0
 	for tk.pos < L {
-		if bytes.HasPrefix(tk.src[tk.pos:], []byte("\\)")) {
+		if tk.src[tk.pos] == '\\' && tk.pos+1 < L && tk.src[tk.pos+1] != '\n' {
+			// valid escape: the escaped code point (possibly ")" or "\") does not end the url
 			tk.pos += 2
 		} else if tk.src[tk.pos] == ')' {
 			tk.pos += 1
